@@ -4,6 +4,8 @@
 
 namespace sim {
 
+volatile int g_curOp = -1;
+
 bool generate(const std::string& profile, uint64_t seed, Trace& out) {
   if (profile == "clock-keep") { out = genClockKeep(seed); return true; }
   if (profile == "clock-sync") { out = genClockSync(seed); return true; }
@@ -20,6 +22,7 @@ static bool execClockOnly(const Trace& tr, Verdict& v, Coverage& cov, bool& nont
   o.wrap32 = o.armC13;
   ClockDevice dev(o);
   for (size_t i = 0; i < tr.lines.size() && !v.violated; i++) {
+    g_curOp = (int)i;
     std::vector<std::string> toks = splitWs(tr.lines[i]);
     if (toks.empty()) continue;
     if (toks[0] == "CFG" || toks[0] == "REF") { dev.configure(toks); continue; }
